@@ -1,5 +1,5 @@
 use std::{
-    collections::HashMap,
+    collections::{HashMap, HashSet},
     fmt::{self, Display, Formatter},
 };
 
@@ -24,6 +24,9 @@ pub struct VisitorContext<'a> {
     type_stack: Vec<Option<&'a registry::MetaType>>,
     input_type: Vec<Option<MetaTypeName<'a>>>,
     fragments: &'a HashMap<Name, Positioned<FragmentDefinition>>,
+    /// The fragments whose selection set has been visited in place of a spread in
+    /// the current operation (see `VisitMode::Inline`).
+    inlined_fragments: HashSet<&'a str>,
 }
 
 impl<'a> VisitorContext<'a> {
@@ -41,6 +44,7 @@ impl<'a> VisitorContext<'a> {
             type_stack: Default::default(),
             input_type: Default::default(),
             fragments: &doc.fragments,
+            inlined_fragments: Default::default(),
         }
     }
 
@@ -169,7 +173,12 @@ impl<'a> VisitorContext<'a> {
 
 #[derive(Copy, Clone, Eq, PartialEq)]
 pub(crate) enum VisitMode {
+    /// Fragment definitions are visited on their own.
     Normal,
+    /// The selection set of a fragment is visited in place of the first spread of
+    /// the fragment in an operation. For every further spread of it in that
+    /// operation only `enter_fragment_spread` and `exit_fragment_spread` are
+    /// called, so a visitor has to remember what the fragment contributed.
     Inline,
 }
 
@@ -579,6 +588,7 @@ fn visit_operation_definition<'a, V: Visitor<'a>>(
     operation: &'a Positioned<OperationDefinition>,
 ) {
     v.enter_operation_definition(ctx, name, operation);
+    ctx.inlined_fragments.clear();
     let root_name = match &operation.node.ty {
         OperationType::Query => Some(&*ctx.registry.query_type),
         OperationType::Mutation => ctx.registry.mutation_type.as_deref(),
@@ -811,6 +821,9 @@ fn visit_fragment_spread<'a, V: Visitor<'a>>(
         && let Some(fragment) = ctx
             .fragments
             .get(fragment_spread.node.fragment_name.node.as_str())
+        && ctx
+            .inlined_fragments
+            .insert(fragment_spread.node.fragment_name.node.as_str())
     {
         // the fragment's selection set is typed by its type condition, not by the place it is spread in
         ctx.with_type(
